@@ -34,6 +34,8 @@ type c19Case struct {
 	Cause     string
 	Failure   string // "" | down-before | dies-during
 	ProxyCode string // default body codec of the proxy peer
+	Pipe      []byte // transfer-filter pipe of the caller's message (hop by hop: it ends at the proxy)
+	RepPipe   []byte // filters the backend adds to its reply
 }
 
 type c19Seen struct {
@@ -80,6 +82,9 @@ func (b *c19Backend) call(ctx erpc.UnknownCallCtx) (interface{}, *erpc.Status) {
 	if p.RepCodec != 0 {
 		ctx.SetBodyCodec(p.RepCodec)
 	}
+	if len(p.RepPipe) > 0 {
+		ctx.AddXferPipe(p.RepPipe...)
+	}
 	if p.Code != 0 {
 		return nil, erpc.NewStatus(p.Code, p.Msg, p.Cause)
 	}
@@ -99,6 +104,12 @@ func genC19(t *rapid.T, protos []vt.NamedProto) c19Case {
 	c.Method = rapid.StringMatching(`/[a-z]{1,8}(/[a-z0-9_]{1,8}){0,2}`).Draw(t, "method")
 	c.Codec = rapid.SampledFrom([]byte{'j', 's', 'p', 'f', 'x'}).Draw(t, "codec")
 	c.Body = vt.Bytes(t, "body", 300)
+	if rapid.IntRange(0, 2).Draw(t, "haspipe") == 0 {
+		c.Pipe = rapid.SliceOfN(rapid.SampledFrom(vt.RegisteredXfer), 1, 2).Draw(t, "pipe")
+	}
+	if rapid.IntRange(0, 3).Draw(t, "hasreppipe") == 0 {
+		c.RepPipe = rapid.SliceOfN(rapid.SampledFrom(vt.RegisteredXfer), 1, 2).Draw(t, "reppipe")
+	}
 	if c.Proto == "json" {
 		// keep the JSON wire protocol's text domain out of this check
 		c.Body = []byte(strings.ToValidUTF8(string(c.Body), "?"))
@@ -157,6 +168,9 @@ func (c c19Case) settings(withRealIP bool) []erpc.MessageSetting {
 	}
 	if c.Accept != 0 {
 		s = append(s, erpc.WithAcceptBodyCodec(c.Accept))
+	}
+	if len(c.Pipe) > 0 {
+		s = append(s, erpc.WithXferPipe(c.Pipe...))
 	}
 	return s
 }
@@ -385,7 +399,7 @@ func runC19(c c19Case, protos []vt.NamedProto) []string {
 	return fails
 }
 
-const ruleC19 = "the same generated request (method, body bytes, body codec incl. ones different from the proxy peer's default, request metadata with repeated keys, real-IP metadata present/absent, accept-body-codec hint) is sent to a backend directly and through a peer running the proxy plugin; the backend's unknown-handler returns generated body bytes / reply codec / reply metadata / status (any code outside the framework-reserved 100-199); pushes likewise; backend failures: session closed before the call, connection cut while the backend handler is gated, sending to the backend fails with an I/O error while its session still looks healthy; oracle (differential): caller-visible status triple, body bytes, reply codec and reply metadata (key -> one value) equal for both paths; backend saw the same method, body, codec and metadata exactly once plus real-IP = the original caller's address iff absent; a backend connection failure gives 502 on that call only (next proxied call on the same and on another session equals the direct result); non-trivial = non-default codec, repeated/special metadata, non-OK status or a failure; distinct by case"
+const ruleC19 = "the same generated request (method, body bytes, body codec incl. ones different from the proxy peer's default, request metadata with repeated keys, real-IP metadata present/absent, accept-body-codec hint, optional transfer-filter pipe on the request and filters added by the backend to its reply) is sent to a backend directly and through a peer running the proxy plugin; the backend's unknown-handler returns generated body bytes / reply codec / reply metadata / status (any code outside the framework-reserved 100-199); pushes likewise; backend failures: session closed before the call, connection cut while the backend handler is gated, sending to the backend fails with an I/O error while its session still looks healthy; oracle (differential): caller-visible status triple, body bytes, reply codec and reply metadata (key -> one value) equal for both paths; backend saw the same method, body, codec and metadata exactly once plus real-IP = the original caller's address iff absent; a backend connection failure gives 502 on that call only (next proxied call on the same and on another session equals the direct result); non-trivial = non-default codec, repeated/special metadata, non-OK status or a failure; distinct by case"
 
 func TestC19Proxy(t *testing.T) {
 	rec := vt.NewRec(t, "C19", "proxy", ruleC19)
